@@ -179,34 +179,25 @@ def run(eng, R):
                         seq.append(s.value.func.attr)
                 R.ob("F5-freeze", "FitBase.%s:sequence" % fn, seq == want, (f.file, lp.lineno), "%s must call %s on every listed node, in this order (found %s)" % (fn, want, seq))
         # freeze lists
-        f = get_func(p, "FitBase", "_get_node_names_to_freeze")
-        rets = [r for r in ast.walk(f.node) if isinstance(r, ast.Return)]
-        got = {}
-        for r in rets:
-            conds = common.guard_conditions(f.node, r)
-            got[_txt(r.value)] = [(_txt(c), pol) for c, pol in conds]
-        want_cond = "first_fit or not self._param_model.get_matching_errors({'relative': True}) or self._dynamic_error_algorithm == 'iterative'"
-        ok = got.get("self._MODEL_ERROR_NODE_NAMES") == [(want_cond, True)] and got.get("[]") == [(want_cond, False)]
-        disj = set()
-        if "self._MODEL_ERROR_NODE_NAMES" in got and len(got["self._MODEL_ERROR_NODE_NAMES"]) == 1:
-            c = [c for c, pol in common.guard_conditions(f.node, [r for r in rets if _txt(r.value) == "self._MODEL_ERROR_NODE_NAMES"][0])][0]
-            if isinstance(c, ast.BoolOp) and isinstance(c.op, ast.Or):
-                disj = {_txt(v) for v in c.values}
-                ok = disj == set(want_cond.split(" or ")) and got.get("[]") is not None and got["[]"][0][1] is False
-        R.ob("F5-freeze", "FitBase._get_node_names_to_freeze", ok, (f.file, f.lineno),
-             "model error nodes must be frozen in the first pass, when no model-relative uncertainty exists, and in every pass of the iterative treatment - and in no other pass (found %s)" % got)
-        f = get_func(p, "XYFit", "_get_node_names_to_freeze")
-        rets = [r for r in ast.walk(f.node) if isinstance(r, ast.Return)]
-        got = {}
-        for r in rets:
-            # (temporaries for the condition and for the base list are read through)
-            conds = [(common.resolve_local(f.node, c), pol) for c, pol in common.guard_conditions(f.node, r)]
-            got[_txt(common.resolve_local(f.node, r.value))] = [(frozenset(_txt(v) for v in (c.values if isinstance(c, ast.BoolOp) and isinstance(c.op, ast.Or) else [c])), pol) for c, pol in conds]
-        wc = frozenset({"self._dynamic_error_algorithm == 'iterative'", "first_fit and self.has_x_errors"})
+        from ..canon import negate
+
+        def freeze_rule(cls, want_cond, with_text, without_text, msg):
+            # the list with the extra nodes is returned exactly when `want_cond` holds, the list without them otherwise (whatever the branching looks like)
+            f = get_func(p, cls, "_get_node_names_to_freeze")
+            want = common.bool_key(ast.parse(want_cond, mode="eval").body)
+            got = [(c, _txt(e)) for c, e in common.results_by_path(f.node)]
+            w = [c for c, e in got if e == with_text]
+            wo = [c for c, e in got if e == without_text]
+            ok = len(got) == 2 and len(w) == 1 and len(wo) == 1 and w[0] is not None and wo[0] is not None \
+                and common.bool_key(w[0]) == want and common.bool_key(negate(wo[0])) == want
+            R.ob("F5-freeze", "%s._get_node_names_to_freeze" % cls, ok, (f.file, f.lineno), msg + " (found %s)" % [(None if c is None else _txt(c), e) for c, e in got])
+
+        freeze_rule("FitBase", "first_fit or not self._param_model.get_matching_errors({'relative': True}) or self._dynamic_error_algorithm == 'iterative'",
+                    "self._MODEL_ERROR_NODE_NAMES", "[]",
+                    "model error nodes must be frozen in the first pass, when no model-relative uncertainty exists, and in every pass of the iterative treatment - and in no other pass")
         sup = "super(XYFit, self)._get_node_names_to_freeze(first_fit)"
-        ok = got.get("self._PROJECTED_NODE_NAMES + " + sup) == [(wc, True)] and got.get(sup) == [(wc, False)]
-        R.ob("F5-freeze", "XYFit._get_node_names_to_freeze", ok, (f.file, f.lineno),
-             "the projected (x-error) nodes must be frozen in every pass of the iterative treatment and in the first pass when x uncertainties exist, added to the base list (found %s)" % got)
+        freeze_rule("XYFit", "self._dynamic_error_algorithm == 'iterative' or (first_fit and self.has_x_errors)", "self._PROJECTED_NODE_NAMES + " + sup, sup,
+                    "the projected (x-error) nodes must be frozen in every pass of the iterative treatment and in the first pass when x uncertainties exist, added to the base list")
         for cname, const in (("FitBase", "_MODEL_ERROR_NODE_NAMES"), ("XYFit", "_PROJECTED_NODE_NAMES")):
             for leaf in p.find_class(cname).concrete_leafs():
                 try:
@@ -448,8 +439,18 @@ def run(eng, R):
                         recv = common.resolve_local(f.node, s.targets[0].value)   # (a local view of the flag array is read through)
                         if isinstance(recv, ast.Attribute) and recv.attr == "fixed" and "_get_iminuit()" in _txt(recv):
                             live.append(s)
-                idxs = {_txt(s.targets[0].slice) for s in live}
-                R.ob("S-imin", "%s.%s:live" % (IM, fn), len(live) == 2 and idxs == {"parameter_name", "self.parameter_names.index(parameter_name)"}, (f.file, f.lineno),
+                # one store per iminuit version (if / else), or one store whose index is chosen by the version (`name if _IMINUIT_1 else index`)
+                idxs = []
+                for s in live:
+                    sl = s.targets[0].slice
+                    if isinstance(sl, ast.IfExp) and _txt(sl.test) in ("_IMINUIT_1", "not _IMINUIT_1"):
+                        pair = [sl.body, sl.orelse] if _txt(sl.test) == "_IMINUIT_1" else [sl.orelse, sl.body]
+                        idxs += [("v1", _txt(pair[0])), ("v2", _txt(pair[1]))]
+                    else:
+                        conds = [(_txt(c), pol) for c, pol in common.guard_conditions(f.node, s) if "_IMINUIT_1" in _txt(c)]
+                        ver = {("_IMINUIT_1", True): "v1", ("_IMINUIT_1", False): "v2", ("not _IMINUIT_1", True): "v2", ("not _IMINUIT_1", False): "v1"}.get(conds[0] if len(conds) == 1 else None)
+                        idxs.append((ver, _txt(sl)))
+                R.ob("S-imin", "%s.%s:live" % (IM, fn), sorted(idxs) == [("v1", "parameter_name"), ("v2", "self.parameter_names.index(parameter_name)")], (f.file, f.lineno),
                      "%s must flip the fixed flag of the same parameter on the live Minuit object (by name for iminuit 1, by its index for iminuit 2)" % fn)
                 ok2, _ = g.all_paths_pass(g.entry.id, lambda n: any(_self_call(c, "_invalidate_cache") for c in _calls_in(n)))
                 R.ob("S-imin", "%s.%s:invalidate" % (IM, fn), ok2, (f.file, f.lineno), "%s must invalidate the cached results" % fn)
